@@ -558,11 +558,9 @@ impl<S: KSub> KSys<S> {
                             cx.violate(prop, "list-order", format!("list buffer not strictly sorted by key: {v:?}"));
                             return;
                         }
-                        if let Some(mn) = v.iter().map(|p| p.1).min() {
-                            if m > mn {
-                                cx.violate(prop, "min_exp", format!("cached earliest expiration {m} is above the earliest stored expiration {mn}"));
-                            }
-                        }
+                        // (the cached earliest expiration is deliberately not inspected: only its observable
+                        // consequences count, and those are exercised by the query / export transitions)
+                        let _ = m;
                     }
                 }
             }
